@@ -608,6 +608,7 @@ fn compile_unit_case(
     diagnostics: &mut Diagnostics,
     rows: Vec<Row>,
     bvar: &Variable,
+    ty: &Ty,
     match_range: Option<TextRange>,
 ) -> core::Expr {
     let body_ty = rows.first().map(|r| r.get_ty()).unwrap_or(Ty::TUnit);
@@ -625,7 +626,7 @@ fn compile_unit_case(
         expr: Box::new(bvar.to_core()),
         arms: vec![core::Arm {
             lhs: core::eunit(),
-            body: compile_rows(genv, gensym, diagnostics, new_rows, &bvar.ty, match_range),
+            body: compile_rows(genv, gensym, diagnostics, new_rows, ty, match_range),
         }],
         default: None,
         ty: body_ty,
@@ -638,6 +639,7 @@ fn compile_bool_case(
     diagnostics: &mut Diagnostics,
     rows: Vec<Row>,
     bvar: &Variable,
+    ty: &Ty,
     match_range: Option<TextRange>,
 ) -> core::Expr {
     let body_ty = rows.first().map(|r| r.get_ty()).unwrap_or(Ty::TUnit);
@@ -666,11 +668,11 @@ fn compile_bool_case(
         arms: vec![
             core::Arm {
                 lhs: core::ebool(true),
-                body: compile_rows(genv, gensym, diagnostics, true_rows, &bvar.ty, match_range),
+                body: compile_rows(genv, gensym, diagnostics, true_rows, ty, match_range),
             },
             core::Arm {
                 lhs: core::ebool(false),
-                body: compile_rows(genv, gensym, diagnostics, false_rows, &bvar.ty, match_range),
+                body: compile_rows(genv, gensym, diagnostics, false_rows, ty, match_range),
             },
         ],
         default: None,
@@ -1012,8 +1014,8 @@ fn compile_rows(
     let bvar = branch_variable(&rows);
     match &bvar.ty {
         Ty::TVar(..) => unreachable!(),
-        Ty::TUnit => compile_unit_case(genv, gensym, diagnostics, rows, &bvar, match_range),
-        Ty::TBool => compile_bool_case(genv, gensym, diagnostics, rows, &bvar, match_range),
+        Ty::TUnit => compile_unit_case(genv, gensym, diagnostics, rows, &bvar, ty, match_range),
+        Ty::TBool => compile_bool_case(genv, gensym, diagnostics, rows, &bvar, ty, match_range),
         Ty::TInt32 => compile_int_case(
             genv,
             gensym,
